@@ -2,7 +2,7 @@
   InvId — identities are unique within a group and never both held and available (C05).
   This part of the invariant holds in EVERY reachable state (not only after a cycle).
 -/
-import TmVerif.Sched.Shape
+import TmVerif.Sched.InvCapOps
 
 namespace TmVerif.Sched
 
@@ -26,12 +26,6 @@ theorem grp?_id {c : Cell} {g : Nat} {grp : Grp} (h : c.grp? g = some grp) : grp
 theorem grp?_mem {c : Cell} {g : Nat} {grp : Grp} (h : c.grp? g = some grp) : grp ∈ c.groups := by
   unfold Cell.grp? at h
   exact List.mem_of_find?_eq_some h
-
-abbrev updGrp (gs : List Grp) (g' : Grp) : List Grp := gs.map (fun x => if x.id = g'.id then g' else x)
-
-theorem mem_updGrp {gs : List Grp} {g' x : Grp} :
-    x ∈ updGrp gs g' ↔ (x ∈ gs ∧ x.id ≠ g'.id) ∨ (x = g' ∧ ∃ y ∈ gs, y.id = g'.id) :=
-  mem_map_upd (·.id) gs g' x
 
 /-- Replacing an app by one with the same id, group and identity. -/
 theorem invId_appSame {c : Cell} (hc : InvId c) {a a' : App} (ha : a ∈ c.apps)
@@ -258,19 +252,43 @@ theorem invId_remove {c c' : Cell} {sid aid : Nat} (hc : InvId c)
   obtain ⟨a, s, ha, _, _, happs, _, hgrps, _, _⟩ := serverRemove_shape h
   exact invId_congr (c := c.setApp (removeRec a)) happs hgrps (invId_appSame hc (app?_mem ha) rfl rfl rfl)
 
-/-- Every primitive transition preserves `InvId`. -/
-theorem invId_prim {c c' : Cell} (hc : InvId c) (hp : Prim c c') : InvId c' := by
+/-- Mapping every app through a function that keeps id, group and identity. -/
+theorem invId_mapSame {c : Cell} (hc : InvId c) (f : App → App)
+    (hid : ∀ a, (f a).id = a.id) (hg : ∀ a, (f a).group = a.group) (hi : ∀ a, (f a).identity = a.identity) :
+    InvId { c with apps := c.apps.map f } := by
+  obtain ⟨h1, h2, h3, h4, h5, h6⟩ := hc
+  have hids : ((c.apps.map f).map (·.id)).Nodup := by
+    rw [List.map_map]
+    have : ((fun x => x.id) ∘ f) = (fun x : App => x.id) := by funext a; exact hid a
+    rw [this]; exact h1
+  refine ⟨hids, h2, ?_, ?_, h5, h6⟩
+  · intro x hx y hy g k gx gy ix iy
+    obtain ⟨x0, hx0, rfl⟩ := List.mem_map.mp hx
+    obtain ⟨y0, hy0, rfl⟩ := List.mem_map.mp hy
+    have := h3 x0 hx0 y0 hy0 g k (by rw [← hg]; exact gx) (by rw [← hg]; exact gy)
+      (by rw [← hi]; exact ix) (by rw [← hi]; exact iy)
+    rw [this]
+  · intro x hx grp hgrp k gx ix
+    obtain ⟨x0, hx0, rfl⟩ := List.mem_map.mp hx
+    exact h4 x0 hx0 grp hgrp k (by rw [← hg]; exact gx) (by rw [← hi]; exact ix)
+
+/-- Every (labelled) primitive transition preserves `InvId`. -/
+theorem invId_lprim {c c' : Cell} {lab : Lab} (hc : InvId c) (hp : LPrim lab c c') : InvId c' := by
   cases hp with
   | put h => exact invId_put hc h
   | remove h => exact invId_remove hc h
   | release h => exact invId_release hc h
   | acquire h => exact invId_acquire hc h
   | appMeta ha hid _ hi hg => exact invId_appSame hc (app?_mem ha) hid hg hi
-  | @dropDangling a sid ha _ _ =>
-    exact invId_appSame (a' := { a with server := none, evicted := true }) hc (app?_mem ha) rfl rfl rfl
-  | @forgetIdentity a k g grp ha _ _ _ _ =>
-    exact invId_forget (a' := { a with identity := none }) hc (app?_mem ha) rfl rfl rfl
+  | ghost ha => exact invId_appSame hc (app?_mem ha) rfl rfl rfl
+  | dropDangling ha _ _ => exact invId_appSame hc (app?_mem ha) rfl rfl rfl
+  | forgetIdentity ha _ _ _ _ => exact invId_forget hc (app?_mem ha) rfl rfl rfl
   | tree => exact invId_congr (c := c) rfl rfl hc
+  | clearEv => exact invId_mapSame hc _ (fun _ => rfl) (fun _ => rfl) (fun _ => rfl)
+
+theorem invId_prim {c c' : Cell} (hc : InvId c) (hp : Prim c c') : InvId c' := by
+  obtain ⟨lab, hp⟩ := hp
+  exact invId_lprim hc hp
 
 theorem invId_reach {c c' : Cell} (hc : InvId c) (h : Reach c c') : InvId c' :=
   h.induct (fun _ _ hc hp => invId_prim hc hp) hc
